@@ -498,11 +498,40 @@ func checkAccumulator(c *Ctx, R string, fn *ssa.Function, accs []*ssa.Phi) [][2]
 			digit = call
 		}
 	})
+	digitFn, digitCall := fn, (*ssa.Call)(nil)
+	if digit != nil {
+		digitCall = digit.(*ssa.Call)
+	} else {
+		// the digit value as one result of a helper that converts the rune (and reports membership)
+		eachInstr(fn, func(b *ssa.BasicBlock, ins ssa.Instruction) {
+			ex, ok := ins.(*ssa.Extract)
+			if !ok || !header.Dominates(b) || !isIntType(ex.Type()) || digit != nil {
+				return
+			}
+			hc, ok := ex.Tuple.(*ssa.Call)
+			if !ok {
+				return
+			}
+			cal := hc.Common().StaticCallee()
+			if cal == nil || !isRepoFunc(cal) || cal.Blocks == nil {
+				return
+			}
+			for _, ret := range returnsOf(cal) {
+				if ex.Index < len(ret.Results) {
+					if rc, ok := ret.Results[ex.Index].(*ssa.Call); ok && calleeFull(rc) == modPath+"/utils.RuneToInt" {
+						if p, isP := rc.Common().Args[0].(*ssa.Parameter); isP && p.Parent() == cal {
+							digit, digitFn, digitCall = ex, cal, rc
+						}
+					}
+				}
+			}
+		})
+	}
 	if digit == nil {
 		c.Undecided(R, name+"/digit", acc.Pos(), "no utils.RuneToInt call in the loop")
 		return nil
 	}
-	okNN, whyNN := digitNonNeg(c, fn, digit.(*ssa.Call))
+	okNN, whyNN := digitNonNeg(c, digitFn, digitCall)
 	c.Check(R, name+"/digit-nonneg", digit.Pos(), okNN, "digit value proven >= 0 where it is added (sign guard, or membership in a table with digit keys only)", whyNN)
 	var entryIdx, backIdx = -1, -1
 	for i, p := range header.Preds {
